@@ -232,7 +232,7 @@ func tkPanicMonitor(c *Ctx, where, msg string, t cashu.Token, input string) {
 	}
 	sig := ""
 	switch where {
-	case "DecodeToken":
+	case "DecodeToken", "DecodeTokenV3", "DecodeTokenV4":
 		if h, _, ok := tkSlicePanic(msg); ok && h == 6 {
 			sig = "C14/DecodeToken/short-string"
 		}
@@ -649,9 +649,9 @@ func (b *tkBatch) maybeFlush() {
 // ---------------------------------------------------------------- stream "token"
 
 func runToken(c *Ctx) {
-	n := 1500
+	n := 2000
 	if c.Thorough {
-		n = 60000
+		n = 25000
 	}
 	b := &tkBatch{c: c}
 	for i := 0; i < n; i++ {
@@ -1046,7 +1046,8 @@ func tkOutsideDomain(c *Ctx) {
 // ---------------------------------------------------------------- stream "token-fuzz"
 
 // tkExpectDecode computes, from the model's front-end answer and the REAL json/cbor libraries applied to the payload
-// the model says is handed to Unmarshal, what DecodeToken must return.  Returns the canonical outcome string.
+// the model says is handed to Unmarshal, what DecodeTokenV4, DecodeTokenV3 and DecodeToken must return.
+// Returns the three canonical outcome strings joined as "V4=… V3=… TOKEN=…".
 func tkExpectDecode(c *Ctx, model string) (string, bool) {
 	// model: ((v4 STAGE) (v3 STAGE))
 	if !strings.HasPrefix(model, "((v4 ") || !strings.HasSuffix(model, "))") {
@@ -1058,69 +1059,76 @@ func tkExpectDecode(c *Ctx, model string) (string, bool) {
 	}
 	v4 := model[5:mid]
 	v3 := model[mid+6 : len(model)-2]
-	stage := func(s string) (kind string, arg string) {
+	// outcome of one decoder: kind = panic | err | ok ; text = canonical rendering; errMsg = message when kind == err
+	one := func(version int, s string) (kind, text, errMsg string, ok bool) {
+		mkErr := func(m string) (string, string, string, bool) { return "err", Render(L(A("err"), S(m))), m, true }
 		switch {
 		case strings.HasPrefix(s, "(panic "):
-			return "panic", s[7 : len(s)-1]
-		case strings.HasPrefix(s, `(payload "`):
-			return "payload", s[10 : len(s)-2]
+			var h, l int
+			fmt.Sscanf(s[7:len(s)-1], "%d %d", &h, &l)
+			return "panic", fmt.Sprintf("(panic \"runtime error: slice bounds out of range [:%d] with length %d\")", h, l), "", true
+		case s == "(err invalid-v3)" && version == 3:
+			return mkErr("invalid V3 token")
+		case s == "(err invalid-v4)" && version == 4:
+			return mkErr("invalid V4 token")
 		case strings.HasPrefix(s, "(err (b64err "):
-			return "b64err", s[13 : len(s)-2]
-		case s == "(err invalid-v3)":
-			return "sentinel", "invalid V3 token"
-		case s == "(err invalid-v4)":
-			return "sentinel", "invalid V4 token"
+			return mkErr("error decoding token: illegal base64 data at input byte " + s[13:len(s)-2])
+		case strings.HasPrefix(s, `(payload "`):
+			p, err := hex.DecodeString(s[10 : len(s)-2])
+			if err != nil {
+				return "", "", "", false
+			}
+			if version == 4 {
+				var t cashu.TokenV4
+				if err := cbor.Unmarshal(p, &t); err != nil {
+					return mkErr("cbor.Unmarshal: " + err.Error())
+				}
+				return "ok", "(ok " + Render(tkV4Sx(t, false)) + ")", "", true
+			}
+			var t cashu.TokenV3
+			if err := json.Unmarshal(p, &t); err != nil {
+				return mkErr("error unmarshaling token: " + err.Error())
+			}
+			// the check DecodeTokenV3 makes after Unmarshal is the model's (checkV3); the driver is idle here
+			// (Batch has collected every answer before the checks run)
+			switch c.Drv.Ask(L(A("token.check-v3"), tkV3Sx(t))) {
+			case "(ok)":
+				return "ok", "(ok " + Render(tkV3Sx(t)) + ")", "", true
+			case "(err invalid-v3)":
+				return mkErr("invalid V3 token")
+			}
 		}
-		return "?", s
+		return "", "", "", false
 	}
-	k4, a4 := stage(v4)
-	switch k4 {
-	case "panic":
-		var h, l int
-		fmt.Sscanf(a4, "%d %d", &h, &l)
-		return fmt.Sprintf("(panic \"runtime error: slice bounds out of range [:%d] with length %d\")", h, l), true
-	case "payload":
-		p, err := hex.DecodeString(a4)
-		if err != nil {
-			return "", false
-		}
-		var t cashu.TokenV4
-		if cbor.Unmarshal(p, &t) == nil {
-			return "(ok " + Render(tkV4Sx(t, false)) + ")", true
-		}
-	case "?":
+	k4, t4, _, ok4 := one(4, v4)
+	k3, t3, m3, ok3 := one(3, v3)
+	if !ok4 || !ok3 {
 		return "", false
 	}
-	k3, a3 := stage(v3)
-	switch k3 {
-	case "panic":
-		var h, l int
-		fmt.Sscanf(a3, "%d %d", &h, &l)
-		return fmt.Sprintf("(panic \"runtime error: slice bounds out of range [:%d] with length %d\")", h, l), true
-	case "sentinel":
-		return Render(L(A("err"), S("invalid token: invalid V3 token"))), true
-	case "b64err":
-		return Render(L(A("err"), S("invalid token: error decoding token: illegal base64 data at input byte "+a3))), true
-	case "payload":
-		p, err := hex.DecodeString(a3)
-		if err != nil {
-			return "", false
-		}
-		var t cashu.TokenV3
-		if err := json.Unmarshal(p, &t); err != nil {
-			return Render(L(A("err"), S("invalid token: error unmarshaling token: "+err.Error()))), true
-		}
-		// the check DecodeTokenV3 makes after Unmarshal is the model's (checkV3); the driver is idle here
-		// (Batch has collected every answer before the checks run)
-		switch c.Drv.Ask(L(A("token.check-v3"), tkV3Sx(t))) {
-		case "(ok)":
-			return "(ok " + Render(tkV3Sx(t)) + ")", true
-		case "(err invalid-v3)":
-			return Render(L(A("err"), S("invalid token: invalid V3 token"))), true
-		}
-		return "", false
+	// DecodeToken: V4 first; on error V3, whose error is wrapped
+	tok := ""
+	switch {
+	case k4 == "panic" || k4 == "ok":
+		tok = t4
+	case k3 == "panic" || k3 == "ok":
+		tok = t3
+	default:
+		tok = Render(L(A("err"), S("invalid token: "+m3)))
 	}
-	return "", false
+	return "V4=" + t4 + " V3=" + t3 + " TOKEN=" + tok, true
+}
+
+// tkOutcome renders (token, err, panic) of one decoder call.
+func tkOutcome(t cashu.Token, isNil bool, err error, panicMsg string) string {
+	switch {
+	case panicMsg != "":
+		return Render(L(A("panic"), S(panicMsg)))
+	case err != nil:
+		return Render(L(A("err"), S(err.Error())))
+	case isNil:
+		return "(nil-token-without-error)"
+	}
+	return "(ok " + Render(tkTokenSx(t)) + ")"
 }
 
 type tkFuzzStats struct{ n int }
@@ -1157,6 +1165,15 @@ func tkFuzzOne(c *Ctx, b *tkBatch, family string, s string) {
 			kind = "ok/v3"
 		}
 	}
+	// the two exported per-version decoders on the same input (DecodeToken hides DecodeTokenV4's error)
+	var d3 *cashu.TokenV3
+	var d4 *cashu.TokenV4
+	var e3, e4 error
+	p3 := tkRecover(func() { d3, e3 = cashu.DecodeTokenV3(s) })
+	p4 := tkRecover(func() { d4, e4 = cashu.DecodeTokenV4(s) })
+	tkPanicMonitor(c, "DecodeTokenV3", p3, nil, s)
+	tkPanicMonitor(c, "DecodeTokenV4", p4, nil, s)
+	impl = "V4=" + tkOutcome(d4, d4 == nil, e4, p4) + " V3=" + tkOutcome(d3, d3 == nil, e3, p3) + " TOKEN=" + impl
 	replay := map[string]any{"family": family, "input": s, "input_hex": hex.EncodeToString([]byte(s))}
 	if utf8.ValidString(impl) {
 		b.addCheck("front", L(A("token.front"), S(hex.EncodeToString([]byte(s)))), func(model string) string {
@@ -1441,9 +1458,9 @@ func runTokenFuzz(c *Ctx) {
 	maxProofs := 3
 	mutPerTok := 300
 	if c.Thorough {
-		nTok = 400
+		nTok = 200
 		maxProofs = 12
-		mutPerTok = 3000
+		mutPerTok = 2000
 	}
 	made := 0
 	for made < nTok {
